@@ -273,6 +273,9 @@ func TestCheck(t *testing.T) {
 		}
 		return
 	}
+	if shard == of-1 {
+		populationPass(t, rep)
+	}
 	e := &mc.Explorer{Bound: bound, Shard: shard, Of: of, Deadline: time.Now().Add(budget)}
 	func() {
 		defer func() {
